@@ -22,7 +22,7 @@ RULE = (
     "extent = max-8 / max / max+8 / max+4, version numbers, fixed port-IDs around every range boundary with the unregulated flag on and "
     "off for standard and vendor roots, reserved words as type / namespace names.  Oracle: an independent validator over the edited "
     "*model* (not over which edits were applied): accepted <=> valid, every rejection is an InvalidDefinitionError.  Non-trivial = at "
-    "least one edit."
+    "least one edit, or a member of the exhaustive single-rule grids (types x casts x array forms x contexts; reserved words x roles; port-IDs x roots x kinds; versions; extents)."
 )
 ASSUMPTIONS = [
     "reserved-word table as in Specification section 3.4.1; attribute names differing only by letter case are not claimed either way",
@@ -65,10 +65,116 @@ def check_rules(case: typing.Any, ctx: Ctx) -> Info:
     else:
         require(ex is not None, "invalid-definition-accepted:" + verdict, "InvalidDefinitionError (%s)" % verdict, "accepted", where)
     classes = ["valid" if verdict is None else "invalid:" + verdict, "edits:%d" % len(case["edits"])] + ["edit:" + e[0] for e in case["edits"]]
-    return Info(len(case["edits"]) >= 1, classes, sample={"file": where, "verdict": verdict or "valid"})
+    if "grid" in case:
+        classes.append("grid:" + case["grid"])
+    return Info(len(case["edits"]) >= 1 or "grid" in case, classes, sample={"file": where, "verdict": verdict or "valid"})
+
+
+def _base(short: str = "Foo", root: str = "vendor") -> typing.Any:
+    return {"root": root, "ns": [], "short": short, "version": [1, 0], "port": None, "allow_unregulated": False, "statements": []}
+
+
+def _sealed() -> typing.Any:
+    return {"s": "dir", "name": "sealed", "expr": None}
+
+
+def _grid(ctx: Ctx) -> typing.Iterable[typing.Any]:
+    """Exhaustive single-rule sweeps (every boundary value of every numeric rule, every reserved / near-reserved word in
+    every role), complementing the random edits."""
+    u8 = {"base": "uint", "width": 8, "cast": None, "array": None}
+    # --- types: every scalar x cast x array form, as a struct field, a union variant and a constant type
+    scalars = []
+    for w in (1, 2, 63, 64, 65, 1000):
+        for c in (None, "saturated", "truncated"):
+            scalars.append({"base": "uint", "width": w, "cast": c})
+    for w in (1, 2, 3, 64, 65):
+        for c in (None, "saturated", "truncated"):
+            scalars.append({"base": "int", "width": w, "cast": c})
+    for w in (8, 15, 16, 17, 32, 64, 128):
+        for c in (None, "saturated", "truncated"):
+            scalars.append({"base": "float", "width": w, "cast": c})
+    for b in ("bool", "byte", "utf8"):
+        for c in (None, "saturated", "truncated"):
+            scalars.append({"base": b, "cast": c})
+    for w in (1, 64, 65):
+        for c in (None, "saturated"):
+            scalars.append({"base": "void", "width": w, "cast": c})
+    for dname in ("Dep", "DepD", "DepV", "DepU", "Nope", "dep"):
+        for c in (None, "truncated"):
+            scalars.append({"base": "dep", "dep": dname, "cast": c})
+    arrays = [None] + [[k, n] for k in ("fixed", "le", "lt") for n in (-1, 0, 1, 2, 3)]
+    for sc in scalars:
+        for arr in arrays:
+            t = dict(sc, array=arr)
+            for ctxk in ("struct", "union", "deprecated-struct", "const", "bare"):
+                m = _base()
+                st_ = m["statements"]
+                if ctxk == "deprecated-struct":
+                    st_.append({"s": "dir", "name": "deprecated", "expr": None})
+                if ctxk == "union":
+                    st_.append({"s": "dir", "name": "union", "expr": None})
+                    st_.append({"s": "field", "type": u8, "name": "first"})
+                if ctxk == "const":
+                    st_.append({"s": "const", "type": t, "name": "K", "value": ["int", 1]})
+                elif ctxk == "bare":
+                    st_.append({"s": "field", "type": t, "name": ""})
+                else:
+                    st_.append({"s": "field", "type": t, "name": "x"})
+                st_.append(_sealed())
+                yield {"skeleton": m, "edits": [], "grid": "type:" + ctxk}
+    # --- names in every role
+    for name in rg.GOOD_NAMES + rg.BAD_NAMES + ["A1", "a1_b2", "x" * 60]:
+        for role in ("field", "const", "short", "ns", "service-field"):
+            m = _base()
+            if role == "field":
+                m["statements"] = [{"s": "field", "type": u8, "name": name}, _sealed()]
+            elif role == "const":
+                m["statements"] = [{"s": "const", "type": u8, "name": name, "value": ["int", 1]}, _sealed()]
+            elif role == "short":
+                m["short"] = name
+                m["statements"] = [_sealed()]
+            elif role == "ns":
+                m["ns"] = ["ok", name]
+                m["statements"] = [_sealed()]
+            else:
+                m["statements"] = [_sealed(), {"s": "marker"}, {"s": "field", "type": u8, "name": name}, _sealed()]
+            yield {"skeleton": m, "edits": [], "grid": "name:" + role}
+    # --- fixed port-IDs around every boundary
+    ports = [0, 1, 255, 256, 257, 382, 383, 384, 385, 510, 511, 512, 513, 6142, 6143, 6144, 6145, 7166, 7167, 7168, 7169, 8190, 8191, 8192, 8193, 65535]
+    for root in ("uavcan", "cyphal", "vendor", "uavcanx"):
+        for service in (False, True):
+            for port in ports:
+                for allow in (False, True):
+                    m = _base(root=root)
+                    m["port"] = port
+                    m["allow_unregulated"] = allow
+                    m["statements"] = [_sealed()] + ([{"s": "marker"}, _sealed()] if service else [])
+                    yield {"skeleton": m, "edits": [], "grid": "port"}
+    # --- versions
+    for major in (0, 1, 254, 255, 256, 1000):
+        for minor in (0, 1, 255, 256):
+            m = _base()
+            m["version"] = [major, minor]
+            m["statements"] = [_sealed()]
+            yield {"skeleton": m, "edits": [], "grid": "version"}
+    # --- extents relative to the longest representation
+    bodies = [[], [{"s": "field", "type": u8, "name": "a"}], [{"s": "field", "type": dict(u8, width=3), "name": "a"}],
+              [{"s": "field", "type": dict(u8, array=["le", 3]), "name": "a"}, {"s": "field", "type": {"base": "dep", "dep": "DepV", "cast": None, "array": None}, "name": "b"}]]
+    for body in bodies:
+        for union in (False, True):
+            if union and len(body) < 2:
+                continue
+            for d in (-16, -8, -7, -1, 0, 1, 4, 7, 8, 9, 16, 800):
+                m = _base()
+                m["statements"] = ([{"s": "dir", "name": "union", "expr": None}] if union else []) + list(body) + [{"s": "dir", "name": "extent", "expr": ["rel", d]}]
+                yield {"skeleton": m, "edits": [], "grid": "extent"}
 
 
 def parts(ctx: Ctx) -> typing.List[Part]:
     cases = st.fixed_dictionaries({"skeleton": rg.skeletons(), "edits": st.lists(rg.edits(), min_size=0, max_size=3)})
     one_edit = st.fixed_dictionaries({"skeleton": rg.skeletons(), "edits": st.lists(rg.edits(), min_size=1, max_size=1)})
-    return [Part("edits", cases, check_rules, weight=2), Part("single-edit", one_edit, check_rules, weight=2)]
+    return [
+        Part("edits", cases, check_rules, weight=2),
+        Part("single-edit", one_edit, check_rules, weight=2),
+        Part("grid", None, check_rules, weight=0, grid=_grid),
+    ]
